@@ -25,13 +25,13 @@ RULE = _rtc.RTC_RULE
 M = "vf.contracts.composite"
 FUNCTIONS = ["CompositeFrontend." + m for m in ["_add", "_add_dependent_constraints", "_claim", "_store_child", "_solver_for_names", "_merged_solver_for", "_names_for",
                                                 "_solvers_for_variables", "_solver_list", "_ensure_sat", "_reabsorb_solver", "_split_child", "check_satisfiability", "satisfiable",
-                                                "eval", "batch_eval", "max", "min", "solution", "is_true", "is_false", "_copy", "_blank_copy", "split", "simplify"]] + \
+                                                "eval", "batch_eval", "max", "min", "solution", "is_true", "is_false", "_copy", "_blank_copy", "split", "simplify", "merge", "_shared_solvers"]] + \
             ["CompositedCacheMixin." + m for m in ["_solver_for_names", "_store_child", "_remove_cached", "_copy", "_blank_copy"]] + ["ConstrainedFrontend._split_constraints (C15)"] + \
             ["the seven thin mixins of the SolverComposite stack (vf/contracts/layers.py: 31 obligations, shared with C11)"]
 TRUSTED = _rtc.RTC_TRUSTED + ["contract of the child solvers (vf/contracts/composite.py:TChild): exact satisfiability, combine / split / branch per C15, queries answered with a token; their own correctness is C11",
                               "children over disjoint variables are independent (true of constraints that mention only their own variables: the support assumption of the truth tables)"]
 ASSUMPTIONS = ["universe of three 1-bit variables; every partition of them into children; one constraint per child in the start state; 1-bit query expressions",
-               "CompositeFrontend.merge / combine, unsat_core, timeout/max_memory setters: bounded part only",
+               "CompositeFrontend.merge is proved for three branches of one ancestor (each child shared or extended by one constraint, checked or not; merge conditions over any variables; constant-False conditions are the recorded unsat-flag finding); combine (inherited: re-adds every constraint through _add), unsat_core, timeout/max_memory setters: bounded part only",
                "ModelCacheMixin.update during _reabsorb_solver is a no-op in the stub (the children's caches are C11)",
                "per-method contracts compose to histories by induction (stated, not mechanised)"]
 
@@ -47,6 +47,8 @@ def tasks(tier, seed=0):
             out.append(task(M, "ob_composite", f"composite.{m}/rep", ["C12"] + (["C14"] if m == "branch" else []) + (["C15"] if m == "split" else []), method=m, tier=tier))
     for m in composite.FAULT_METHODS:
         out.append(task(M, "ob_composite", f"composite.{m}/rep-after-a-child-gave-up", ["C17", "C12"], method=m, tier=tier))
+    for sh in range(3):
+        out.append(task(M, "ob_composite_merge", f"composite.merge/rep+model-set@ancestor-children={'+'.join([['a'], ['a', 'b'], ['ab', 'c']][sh])}", ["C12", "C15"], shape=sh, tier=tier))
     # the thin mixins of the SolverComposite stack above CompositedCacheMixin (the same obligations as under C11)
     from vf.contracts import layers
     out += layers.all_tasks(tier)
